@@ -14,7 +14,7 @@ import sys
 
 from hypothesis import strategies as st
 
-from lib import common, gens, mmgen, modules as MD, refmm
+from lib import common, gens, mmgen, modules as MD, notations, refmm
 from lib.common import Stats, Violation
 
 PROP = 'C18'
@@ -43,12 +43,22 @@ def batches(draw):
     n_mod = draw(st.integers(2, 3))
     for i in range(n_mod):
         desc = draw(MD.module_descs(with_apps=True, rich=True, sym_pool=('a', 'b', 'c', 'd'), allow_taut=False))  # tautology proofs: minutes in pretty mode
+        # late changes: notations registered on the root (modules of one process then print with different notation sets) and
+        # a module imported last; the same description is also serialised once *before* these changes and again after them
+        # (same object), which must give the files of a fresh build
+        labels = sorted(l for l, n_ in notations.registry()[1].items() if n_.arity <= 3 and '#' not in l)
+        desc['extra_notations'] = draw(st.lists(st.sampled_from(labels), max_size=4, unique=True))
+        if draw(st.booleans()):
+            desc['late_import'] = {'axioms': [gens.sugared_to_json(MD.draw_axiom(draw, MD.sym_cfg(['a', 'late']), 1)) for _ in range(draw(st.integers(1, 2)))]}
         for fmt in ('binary', 'pretty'):
             for opt in (False, True):
                 jid = 'mod%d-%s-%s' % (i, fmt, 'opt' if opt else 'noopt')
                 jobs.append({'id': jid, 'kind': 'module', 'desc': desc, 'fmt': fmt, 'optimize': opt})
                 txt = json.dumps(desc)
                 meta[jid] = {'nt': txt.count('"y"') >= 2 and txt.count('"m"') >= 2, 'cls': ['module', fmt, 'optimize' if opt else 'plain']}
+                if desc.get('late_import') or desc['extra_notations']:
+                    jobs.append({'id': jid + '-grown', 'kind': 'module', 'desc': desc, 'fmt': fmt, 'optimize': opt, 'grow': True, 'same_as': jid})
+                    meta[jid + '-grown'] = {'nt': True, 'cls': ['module', fmt, 'serialised-before-and-after-growing']}
     for i in range(1):
         rnd = mmgen.DrawRnd(draw)
         extras = draw(st.booleans())   # declarations of #Variable / #ElementVariable / #SetVariable / #Symbol variables and axioms over them
@@ -91,6 +101,12 @@ def _body(c, stats: Stats, tier='quick'):
         obs = results.get(jid, [])
         stats.case(json.dumps(j, sort_keys=True), m['nt'], m['cls'] + ['configs-%d' % len(obs)],
                    {'job': jid, 'kind': j['kind'], 'digest': obs[0][2] if obs else None, 'processes': len(obs)})
+        if j.get('same_as'):
+            # the files written after the module grew must be the files of a fresh build of the grown module
+            fresh = results.get(j['same_as'], [])
+            if obs and fresh and json.dumps(obs[0][2]) != json.dumps(fresh[0][2]):
+                raise Violation('%s: a module serialised, grown (late import / registered notations) and serialised again gives %s, a fresh build of the same module gives %s'
+                                % (jid, obs[0][2], fresh[0][2]), {'job': j, 'a': [obs[0][0], obs[0][1]], 'b': [fresh[0][0], fresh[0][1]], 'all_jobs': jobs}, 'history:' + j['fmt'])
         distinct = {json.dumps(d) for _, _, d in obs}
         if len(distinct) > 1:
             first = obs[0]
